@@ -216,6 +216,7 @@ def run_case(rec, files: dict, descs: dict | None, order: list[str], implicit: b
     deferred: list[tuple[str, str]] = []
     loaded_now: list[str] = []
     call_mark, call_asked = [0], [None]
+    pulled_in: list[str] = []  # packages loaded by resolve_aliases itself (M-EXT: on_package_loaded inside the call)
     try:
         with case_watchdog(120), tmp_tree(files) as root:
             PACKAGES_LOADED.clear()
@@ -231,6 +232,7 @@ def run_case(rec, files: dict, descs: dict | None, order: list[str], implicit: b
                     if pkg == "resolve":  # histories: load, resolve, load more, resolve again
                         stage = "resolve_aliases (between loads)"
                         loader.resolve_aliases(implicit=implicit, external=external)
+                        pulled_in.extend(PACKAGES_LOADED[call_mark[0]:])
                         rec.count("interleaved_resolutions")
                         stage = "load"
                     else:
@@ -243,6 +245,7 @@ def run_case(rec, files: dict, descs: dict | None, order: list[str], implicit: b
                     stage = f"resolve_aliases#{i + 1}"
                     call_mark[0], call_asked[0] = len(PACKAGES_LOADED), None
                     unresolved, iterations = loader.resolve_aliases(implicit=implicit, external=external)
+                    pulled_in.extend(PACKAGES_LOADED[call_mark[0]:])  # packages this resolve call loaded on its own (external)
                     snaps.append((snapshot(loader.modules_collection), sorted(unresolved)))
                     by_path = {al.path: al for al in all_aliases(loader.modules_collection)}
                     for upath in sorted(unresolved):
@@ -303,13 +306,19 @@ def run_case(rec, files: dict, descs: dict | None, order: list[str], implicit: b
                     # of a module dereferences that module's own aliases
                     others_ok = all(k.startswith("placeholder:") or owner(k) in affected or (v[1] is not None and (v[0] is None or v[0][0] == "PARTIAL"))
                                     for k, v in diff.items())
-                    fid = "C06-wildcard-late-expansion" if (gone and others_ok) else None
+                    fid = None
+                    if gone and others_ok:
+                        # two mechanisms give this picture: resolve_aliases expands wildcards once, before its resolution loop,
+                        # so a wildcard over a package the loop itself pulls in (external) is only expanded by the next call;
+                        # without such a nested load it is the expansion-order defect (repaired by ea4724e)
+                        fid = ("C06-wildcards-not-expanded-again-after-external-load" if external is not False and pulled_in
+                               else "C06-wildcard-late-expansion")
                     if fid:
                         deferred.append((fid, f"resolve_aliases() call #{i + 1} changed the tree (not a fixpoint): " + str(sorted(diff))[:200]))
                         break   # a listed mechanism: go on with the other monitors of this case
                     rec.fail(case, f"resolve_aliases() call #{i + 1} changed the tree (not a fixpoint)",
                              observed={"changed": diff, "unresolved": [snaps[0][1], snaps[i][1]]},
-                             tried=["C06-wildcard-late-expansion"], nontrivial=nontrivial, tags=tags)
+                             tried=["C06-wildcard-late-expansion", "C06-wildcards-not-expanded-again-after-external-load"], nontrivial=nontrivial, tags=tags)
                     return
             # (3) all-or-nothing -------------------------------------------------------------
             stage = "all-or-nothing"
